@@ -223,13 +223,13 @@ theorem resolveUnquoted_true (y : Str) : resolveUnquoted true y = normpath y := 
 /-- the `lowercase` step of `fingerprint_url`'s call -/
 def lc (o : Opts) (y : Str) : Str := if o.lowercase then lower y else y
 
-/-- what `normalize_url` does to the resolved path when `strip_trailing_slash` is on and
-`quoted` is off: AMP suffixes, index file, trailing slashes, canonical escaping -/
-def pathTail (amp idx : Bool) (x : Str) : Str :=
+/-- what `normalize_url` does to the resolved path when `strip_trailing_slash` is on: AMP
+suffixes, index file, trailing slashes, canonical escaping (quoted or not) -/
+def pathTail (quoted amp idx : Bool) (x : Str) : Str :=
   let x := if amp then ampSuffixSub x else x
   let x := if idx then stripIndex x else x
   let x := if endsWith x ['/'] then rstripChars x ['/'] else x
-  unquotePath x
+  if quoted then safelyQuote x else unquotePath x
 
 theorem root_rule_subsumed (x : Str) (c : Prop) [Decidable c] :
     (let p1 := if x = ['/'] ∧ c then [] else x
@@ -245,12 +245,12 @@ theorem root_rule_subsumed (x : Str) (c : Prop) [Decidable c] :
 /-- with `strip_trailing_slash` the path of the result depends on the input path only through
 `normpath` of the unquoted (and, for `fingerprint_url`, lower-cased) path — in particular not on
 the query or the fragment -/
-theorem normPath_eq (o : Opts) (hsts : o.stripTrailingSlash = true) (hq : o.quoted = false)
+theorem normPath_eq (o : Opts) (hsts : o.stripTrailingSlash = true)
     (path fragment query : Str) :
     normPath o path fragment query =
-      pathTail o.normalizeAmp o.stripIndex (normpath (lc o (unquotePath path))) := by
+      pathTail o.quoted o.normalizeAmp o.stripIndex (normpath (lc o (unquotePath path))) := by
   unfold normPath pathSteps pathTail lc
-  simp only [hsts, hq, resolveUnquoted_true, Bool.true_and, Bool.false_eq_true, if_false]
+  simp only [hsts, resolveUnquoted_true, Bool.true_and]
   generalize (if o.lowercase = true then lower (unquotePath path) else unquotePath path) = y
   have := root_rule_subsumed
     (if o.stripIndex = true then
@@ -261,8 +261,8 @@ theorem normPath_eq (o : Opts) (hsts : o.stripTrailingSlash = true) (hq : o.quot
   rw [this]
 
 /-- the empty path and the root are the same path for `normalize_url` -/
-theorem pathTail_root (amp idx : Bool) : pathTail amp idx ['/'] = pathTail amp idx [] := by
-  cases amp <;> cases idx <;> decide
+theorem pathTail_root (q amp idx : Bool) : pathTail q amp idx ['/'] = pathTail q amp idx [] := by
+  cases q <;> cases amp <;> cases idx <;> decide
 
 theorem sep_slash' : Sep '/' := ⟨by decide, by decide⟩
 
@@ -313,19 +313,40 @@ theorem normpath_canonPath (hPH : PathHyp) (path : Str) (hAbs : absP path = true
         rw [e1, e2]
       rw [h, hu, hu, h3 hne]
 
+open Ural.Normpath in
+/-- what `normalize_url` first does to the path `canonicalize_url` printed: unquoting it gives
+the canonical path back, in both modes (quoted: for a clean path — no raw `?`, `#`, control) -/
+theorem unquote_pathOut (q : Bool) (path : Str) (hAbs : absP path = true) (hm : Bool)
+    (hcl : q = true → pathClean path = true) :
+    unquotePath (pathOut q path hm) = canonPath path hm := by
+  cases q with
+  | false =>
+    simp only [pathOut, Bool.false_eq_true, if_false]
+    rw [unquotePath_canonPath path hm hAbs, unquotePath_canonPath path hm hAbs]
+  | true =>
+    simp only [pathOut, if_true]
+    exact unquote_quote_canonPath path hm hAbs (hcl rfl)
+
+open Ural.Normpath in
 /-- path clause of the factorisation -/
 theorem normPath_canon (hPH : PathHyp) (o : Opts) (hsts : o.stripTrailingSlash = true)
-    (hq : o.quoted = false) (hlc : o.lowercase = false) (path : Str) (hAbs : absP path = true)
+    (hlc : o.lowercase = false) (path : Str) (hAbs : absP path = true)
+    (hcl : o.quoted = true → pathClean path = true)
     (hm : Bool) (f q f' q' : Str) :
-    normPath o (unquotePath (canonPath path hm)) f' q' = normPath o path f q := by
-  rw [normPath_eq o hsts hq, normPath_eq o hsts hq]
+    normPath o (pathOut o.quoted path hm) f' q' = normPath o path f q := by
+  rw [normPath_eq o hsts, normPath_eq o hsts]
   simp only [lc, hlc, Bool.false_eq_true, if_false]
-  rcases normpath_canonPath hPH path hAbs hm with h | ⟨h1, h2⟩
+  rw [unquote_pathOut o.quoted path hAbs hm hcl]
+  have hu : unquotePath (unquotePath (canonPath path hm)) = canonPath path hm := by
+    rw [unquotePath_canonPath path hm hAbs, unquotePath_canonPath path hm hAbs]
+  have key := normpath_canonPath hPH path hAbs hm
+  rw [hu] at key
+  rcases key with h | ⟨h1, h2⟩
   · rw [h]
   · rcases h1 with h1 | h1 <;> rcases h2 with h2 | h2 <;> rewrite [h1, h2]
     · exact rfl
-    · exact pathTail_root _ _
-    · exact (pathTail_root _ _).symm
+    · exact pathTail_root _ _ _
+    · exact (pathTail_root _ _ _).symm
     · exact rfl
 
 /-! ## the query -/
@@ -435,17 +456,31 @@ theorem domainFilter_getD (h : Option Str) : domainFilter h = domainFilter (some
   | none => simp [domainFilter]
   | some s => rfl
 
+/-- the items of the printed canonical query are the items of the query, in both modes
+(quoted: for clean items — the exclusion of KF-C02-1) -/
+theorem items_canonQuery_modes (Q : Bool) (q : Str) (hcl : Q = true → QslClean q) :
+    unquoteQsl (safeQslIter (canonQuery Q q)) = unquoteQsl (safeQslIter q) ∧
+    (canonQuery Q q).isEmpty = q.isEmpty ∧
+    canonQuery false (canonQuery Q q) = canonQuery false q := by
+  have hm := canonQuery_modes Q false q hcl
+  refine ⟨?_, ?_, hm⟩
+  · have h1 := items_canonQuery (canonQuery Q q)
+    rw [hm, items_canonQuery] at h1
+    exact h1.symm
+  · rw [← canonQuery_isEmpty (canonQuery Q q), hm, canonQuery_isEmpty]
+
 /-- query clause of the factorisation -/
 theorem filterQuery_canon (o : Opts) (h h' : Option Str) (q : Str)
-    (hd : domainFilter h' = domainFilter h) :
-    filterQuery o h' (fixQ o (canonQuery false q)) = filterQuery o h (fixQ o q) := by
+    (hd : domainFilter h' = domainFilter h) (hcl : o.quoted = true → QslClean q) :
+    filterQuery o h' (fixQ o (canonQuery o.quoted q)) = filterQuery o h (fixQ o q) := by
+  obtain ⟨hi, he, hm⟩ := items_canonQuery_modes o.quoted q hcl
   unfold fixQ
   by_cases hf : o.fixCommonMistakes = true
-  · simp only [hf, if_true, canonQuery_idem]
+  · simp only [hf, if_true, hm]
     unfold filterQuery
     rw [hd]
   · simp only [hf, Bool.false_eq_true, if_false]
-    exact filterQuery_congr o h h' _ _ hd (canonQuery_isEmpty q) (items_canonQuery q)
+    exact filterQuery_congr o h h' _ _ hd he hi
 
 /-! ## the host -/
 
@@ -530,16 +565,40 @@ theorem filterHost_getD (puny : Str → Str) (h : Option Str) :
   | none => rfl
   | some s => rfl
 
-/-- **the factorisation** (unquoted mode, `strip_protocol`, `strip_authentication`,
-`strip_trailing_slash` on — the defaults —, every other documented option free): `normalize_url`
+/-- the components of `normParts`, spelled out (`strip_protocol`, `strip_authentication` on) -/
+theorem normParts_eq (puny : Str → Str) (o : Opts) (hsp : o.stripProtocol = true)
+    (hsa : o.stripAuthentication = true) (b : Bool) (p : Parsed) :
+    normParts puny o b p =
+      { scheme := [],
+        netloc := unsplitNetloc none none (p.hostname.map (normHost puny o)) (normPort p.port),
+        path := normPath o p.path
+          (normFragment o.stripFragment (lc o (unquoteFragment p.fragment))) (fixQ o p.query),
+        query := safeSerializeQsl
+          (if o.quoted then quoteQsl (unquoteQsl (filterQuery o (filterHost puny p.hostname) (fixQ o p.query)))
+           else unquoteQsl (filterQuery o (filterHost puny p.hostname) (fixQ o p.query))),
+        fragment := some (requote o.quoted unquoteFragment
+          (normFragment o.stripFragment (lc o (unquoteFragment p.fragment)))) } := by
+  unfold normParts normComps
+  simp only [hsp, hsa, Bool.true_or, if_true, fixedQuery_eq]
+  rfl
+
+/-- the inputs `quoted` mode must not hold for the mode round trips (the class of KF-C02-1): a
+raw `?`/`#`/control character in the path (the parser never returns one), a raw character in a
+query item or in the fragment that `quote` escapes and the unquoter keeps escaped (`=` in a
+value, …) -/
+def QuotedClean (p : Parsed) : Prop :=
+  Normpath.pathClean p.path = true ∧ QslClean p.query ∧ cleanStr Gen.Quote.unsafeForFragment p.fragment = true
+
+/-- **the factorisation** (`strip_protocol`, `strip_authentication`, `strip_trailing_slash` on — the
+defaults —, every other documented option free; the same `quoted` on both sides): `normalize_url`
 computes from any re-parse `p'` of the canonical components of `p` (canonicalised under ANY
 scheme `s0`: canonicalize_url assumes `https` where normalize_url assumes `http`) exactly what it
 computes from `p` -/
 theorem normParts_reparse_canon (puny : Str → Str) (hp : PunyLaws puny) (hPH : PathHyp)
     (o : Opts) (hsp : o.stripProtocol = true) (hsa : o.stripAuthentication = true)
-    (hsts : o.stripTrailingSlash = true) (hq : o.quoted = false) (hlc : o.lowercase = false)
-    (p p' : Parsed) (hAbs : absP p.path = true) (s0 : Str)
-    (hR : Reparses (canonComps puny false false { p with scheme := s0 }) p') (b b' : Bool) :
+    (hsts : o.stripTrailingSlash = true) (hlc : o.lowercase = false)
+    (p p' : Parsed) (hAbs : absP p.path = true) (hcl : o.quoted = true → QuotedClean p) (s0 : Str)
+    (hR : Reparses (canonComps puny o.quoted false { p with scheme := s0 }) p') (b b' : Bool) :
     normParts puny o b' p' = normParts puny o b p := by
   obtain ⟨hpath, hquery, hfrag, hhost, hport⟩ := hR
   simp only [canonComps] at hpath hquery hfrag hhost hport
@@ -547,10 +606,11 @@ theorem normParts_reparse_canon (puny : Str → Str) (hp : PunyLaws puny) (hPH :
   -- fragment
   have hf' : unquoteFragment p'.fragment = unquoteFragment p.fragment := by
     rw [hfrag]
-    simp only [canonOpt, requote, Bool.false_eq_true, if_false]
+    simp only [canonOpt]
     by_cases he : p.fragment.isEmpty = true
     · simp [he]
-    · simp only [he, Bool.false_eq_true, if_false]; exact unquoteFragment_idem _
+    · simp only [he, Bool.false_eq_true, if_false]
+      exact unquote_requote _ fragU.1 fragU.2 o.quoted p.fragment (fun e => (hcl e).2.2)
   -- host
   have hh' : p'.hostname.getD [] = (if (p.hostname.getD []).isEmpty then p.hostname.getD []
       else canonHost puny (p.hostname.getD [])) := by
@@ -571,29 +631,25 @@ theorem normParts_reparse_canon (puny : Str → Str) (hp : PunyLaws puny) (hPH :
       · simp [hc]
       · simp only [hc, Bool.false_eq_true, if_false, canonHost_idem puny hp]
   -- query
-  have hqs : filterQuery o (filterHost puny p'.hostname) (fixedQuery o p')
-      = filterQuery o (filterHost puny p.hostname) (fixedQuery o p) := by
-    rw [fixedQuery_eq, fixedQuery_eq, hquery]
-    exact filterQuery_canon o _ _ _ hdf
+  have hqs : filterQuery o (filterHost puny p'.hostname) (fixQ o p'.query)
+      = filterQuery o (filterHost puny p.hostname) (fixQ o p.query) := by
+    rw [hquery]
+    exact filterQuery_canon o _ _ _ hdf (fun e => (hcl e).2.1)
   -- port
   have hpt : normPort p'.port = normPort p.port := by
     rw [hport]; exact normPort_canon s0 p.port
   -- path
   have hpa : ∀ f q f' q', normPath o p'.path f' q' = normPath o p.path f q := by
     intro f q f' q'
-    rw [hpath]
-    exact normPath_canon hPH o hsts hq hlc p.path hAbs _ f q f' q'
-  unfold normParts normComps
-  simp only [hsp, hsa, hq, hlc, Bool.true_or, if_true, Bool.false_eq_true, if_false, hf']
-  have hqs' := hqs
-  unfold filterHost at hqs'
-  simp only [canonHost] at hqs'
-  rw [hqs']
+    have e : p'.path = Normpath.pathOut o.quoted p.path
+        (!p.query.isEmpty || truthy (some p.fragment)) := by
+      rw [hpath]; rfl
+    rw [e]
+    exact normPath_canon hPH o hsts hlc p.path hAbs (fun e => (hcl e).1) _ f q f' q'
+  rw [normParts_eq puny o hsp hsa, normParts_eq puny o hsp hsa, hf', hqs, hpt,
+    hpa _ (fixQ o p.query) _ (fixQ o p'.query)]
   congr 1
-  · rw [unsplitNetloc_host none none (p'.hostname.map _), unsplitNetloc_host none none (p.hostname.map _),
-      hhostN]
-    show unsplitNetloc none none _ (normPort p'.port) = unsplitNetloc none none _ (normPort p.port)
-    rw [hpt]
-  · exact hpa _ _ _ _
+  rw [unsplitNetloc_host none none (p'.hostname.map _), unsplitNetloc_host none none (p.hostname.map _),
+    hhostN]
 
 end Ural.C03
